@@ -1,10 +1,368 @@
-import ScryerModel.Model.TermOps
+import ScryerModel.Proofs.TermOps
+/-
+C23 — term construction and inspection builtins match a term model.
+
+The model (`Model/TermOps.lean`) mirrors `try_functor`, `try_arg`, `univ_errors/3`+`univ_worker/3`,
+`can_be_list/2`+`'$term_variables'`, `ground_test` and the body of `subsumes_term/2`; `copy_term/2`
+is a renaming with fresh variables followed by a unification.  The theorems below are about ALL
+terms (no size bound).  They are tied to the implementation by `vlib/props/C23.py`.
+-/
 namespace Scryer.C23
 open Scryer Scryer.Term Scryer.Unify Scryer.TermOps
 
-/-- `subsumes_term/2` never leaves a binding. -/
-theorem C23_subsumes_no_bindings (g s : Term) :
-    subsumesTerm g s = .ok [] ∨ subsumesTerm g s = .fail := by
-  unfold subsumesTerm; split <;> simp
+/-- principal functor name of a non-variable term (an atomic term is its own name). -/
+def nameOf : Term → Term
+  | .str f _ => .atom f
+  | t => t
+
+def arityOf : Term → Nat
+  | .str _ args => args.length
+  | _ => 0
+
+def argsOf : Term → List Term
+  | .str _ args => args
+  | _ => []
+
+/-- equal up to renaming: each is obtained from the other by a variable-for-variable substitution. -/
+def Variant (a b : Term) : Prop :=
+  ∃ ρ ρ' : String → Term, (∀ x, ∃ y, ρ x = .var y) ∧ (∀ x, ∃ y, ρ' x = .var y) ∧
+    a.subst ρ = b ∧ b.subst ρ' = a
+
+theorem subst_ground {u : Term} (h : u.vars = []) (ρ : String → Term) : u.subst ρ = u := by
+  conv => rhs; rw [← Term.subst_id u]
+  apply Term.subst_congr
+  intro x hx; rw [h] at hx; cases hx
+
+theorem applyS_ground {u : Term} (h : u.vars = []) (σ : Subst) : applyS σ u = u := by
+  rw [applyS_eq_subst]; exact subst_ground h _
+
+/-! ## functor/3 -/
+
+/-- Inspection mode: `functor(T, N, A)` with `T` non-variable and `N`, `A` distinct unbound
+    variables binds `N` to the name and `A` to the arity of `T` (for an atomic `T`: `T` and 0). -/
+theorem C23_functor_inspect (avoid : List String) {t : Term} (ht : isVar t = false)
+    {N A : String} (hne : N ≠ A) :
+    functor3 avoid t (.var N) (.var A) = .ok [(A, .int (arityOf t)), (N, nameOf t)] := by
+  have hne' : A ≠ N := fun e => hne e.symm
+  cases t with
+  | var x => simp [isVar] at ht
+  | str f args =>
+      simp only [functor3, unifyAll, nameOf, arityOf]
+      rw [solve_bind (by simp [Term.vars])]
+      simp only [substE, List.map_cons, List.map_nil, subst1, Term.subst, single, hne', if_false]
+      rw [solve_bind (by simp [Term.vars])]
+      simp [substE, solve, ofOutcome]
+  | int v =>
+      simp only [functor3, unifyAll, nameOf, arityOf]
+      rw [solve_bind (by simp [Term.vars])]
+      simp only [substE, List.map_cons, List.map_nil, subst1, Term.subst, single, hne', if_false]
+      rw [solve_bind (by simp [Term.vars])]
+      simp [substE, solve, ofOutcome]
+  | rat n d =>
+      simp only [functor3, unifyAll, nameOf, arityOf]
+      rw [solve_bind (by simp [Term.vars])]
+      simp only [substE, List.map_cons, List.map_nil, subst1, Term.subst, single, hne', if_false]
+      rw [solve_bind (by simp [Term.vars])]
+      simp [substE, solve, ofOutcome]
+  | flt b =>
+      simp only [functor3, unifyAll, nameOf, arityOf]
+      rw [solve_bind (by simp [Term.vars])]
+      simp only [substE, List.map_cons, List.map_nil, subst1, Term.subst, single, hne', if_false]
+      rw [solve_bind (by simp [Term.vars])]
+      simp [substE, solve, ofOutcome]
+  | atom a =>
+      simp only [functor3, unifyAll, nameOf, arityOf]
+      rw [solve_bind (by simp [Term.vars])]
+      simp only [substE, List.map_cons, List.map_nil, subst1, Term.subst, single, hne', if_false]
+      rw [solve_bind (by simp [Term.vars])]
+      simp [substE, solve, ofOutcome]
+
+/-- Checking mode: for a non-variable `T` the call is exactly the unification of `N` with the name
+    and then of `A` with the arity; no error is possible. -/
+theorem C23_functor_nonvar (avoid : List String) {t : Term} (ht : isVar t = false) (n a : Term) :
+    functor3 avoid t n a = unifyAll [(n, nameOf t), (a, .int (arityOf t))] := by
+  cases t <;> simp_all [functor3, isVar, nameOf, arityOf]
+
+/-- … so an answer makes `N` the name and `A` the arity. -/
+theorem C23_functor_nonvar_sound (avoid : List String) {t : Term} (ht : isVar t = false)
+    {n a : Term} {σ : Subst} (h : functor3 avoid t n a = .ok σ) :
+    applyS σ n = nameOf t ∧ applyS σ a = .int (arityOf t) := by
+  rw [C23_functor_nonvar avoid ht] at h
+  unfold unifyAll at h
+  cases hs : solve [(n, nameOf t), (a, .int (arityOf t))] [] with
+  | ok τ =>
+      rw [hs] at h
+      simp only [ofOutcome, Res.ok.injEq] at h
+      subst h
+      have g := solve_nil_ok hs
+      have h1 : applyS τ n = applyS τ (nameOf t) := g.solves (n, nameOf t) (by simp)
+      have h2 : applyS τ a = applyS τ (.int (arityOf t)) := g.solves (a, .int (arityOf t)) (by simp)
+      have gname : (nameOf t).vars = [] := by
+        cases t <;> simp_all [nameOf, isVar]
+      rw [applyS_ground gname] at h1
+      rw [applyS_ground (u := .int (arityOf t)) (by simp [Term.vars])] at h2
+      exact ⟨h1, h2⟩
+  | clash => rw [hs] at h; simp [ofOutcome] at h
+  | cyclic => rw [hs] at h; simp [ofOutcome] at h
+
+/-- Construction mode: `functor(T, f, k)` with `T` unbound, `f` an atom and `0 < k ≤ max_arity`
+    binds `T` to `f(F1,…,Fk)` whose arguments are `k` pairwise distinct variables that occur
+    nowhere else (neither `T` nor any name to avoid). -/
+theorem C23_functor_construct (avoid : List String) (x f : String) {k : Nat} (hk : 0 < k)
+    (hmax : k ≤ maxArity) :
+    ∃ fresh : List String, fresh.length = k ∧ fresh.Nodup ∧ (∀ y ∈ fresh, y ≠ x ∧ y ∉ avoid) ∧
+      functor3 avoid (.var x) (.atom f) (.int k) = .ok [(x, .str f (fresh.map Term.var))] := by
+  refine ⟨freshNames (x :: avoid) k, freshNames_length _ _, freshNames_nodup _ _, ?_, ?_⟩
+  · intro y hy
+    have := freshNames_not_mem hy
+    simp only [List.mem_cons, not_or] at this
+    exact this
+  · have h1 : ¬ ((k : Int) > (maxArity : Int)) := by omega
+    have h2 : ¬ ((k : Int) < 0) := by omega
+    simp only [functor3, isVar, Bool.or_self, Bool.false_eq_true, if_false, h1, h2, Int.toNat_natCast]
+    have : (freshNames (x :: avoid) k).map Term.var ≠ [] := by
+      intro e
+      have := congrArg List.length e
+      simp [freshNames_length] at this
+      omega
+    cases hm : (freshNames (x :: avoid) k).map Term.var with
+    | nil => exact absurd hm this
+    | cons a l => simp [mkStr]
+
+/-- Construction with arity 0: `T` is bound to the (atomic) name itself. -/
+theorem C23_functor_construct_atomic (avoid : List String) (x : String) {c : Term}
+    (hc : isAtomic c = true) :
+    functor3 avoid (.var x) c (.int 0) = .ok [(x, c)] := by
+  cases c <;> simp_all [functor3, isAtomic, isVar, maxArity, freshNames, freshFrom, mkStr]
+
+/-- Round trip: constructing with `f`, `k` and then inspecting returns `f` and `k`. -/
+theorem C23_functor_roundtrip (avoid avoid' : List String) (x f : String) {k : Nat} (hk : 0 < k)
+    (hmax : k ≤ maxArity) {N A : String} (hne : N ≠ A) :
+    ∃ t, functor3 avoid (.var x) (.atom f) (.int k) = .ok [(x, t)] ∧
+      functor3 avoid' t (.var N) (.var A) = .ok [(A, .int k), (N, .atom f)] := by
+  obtain ⟨fresh, hl, _, _, h⟩ := C23_functor_construct avoid x f hk hmax
+  refine ⟨_, h, ?_⟩
+  have := C23_functor_inspect avoid' (t := .str f (fresh.map Term.var)) rfl hne
+  simpa [arityOf, nameOf, hl] using this
+
+/-- 8.5.1.3 a), b): `T` and (`N` or `A`) unbound. -/
+theorem C23_functor_err_inst (avoid : List String) (x : String) {n a : Term}
+    (h : isVar n = true ∨ isVar a = true) :
+    functor3 avoid (.var x) n a = .err instErr := by
+  rcases h with h | h <;> simp [functor3, h]
+
+/-- 8.5.1.3 d): the arity is neither a variable nor an integer (floats, rationals included). -/
+theorem C23_functor_err_integer (avoid : List String) (x : String) {n a : Term}
+    (hn : isVar n = false) (ha : isVar a = false) (hi : ∀ v, a ≠ .int v) :
+    functor3 avoid (.var x) n a = .err (typeErr "integer" a) := by
+  cases a <;> simp_all [functor3, isVar]
+
+/-- 8.5.1.3 f): arity above `max_arity` (255), bignums included. -/
+theorem C23_functor_err_max_arity (avoid : List String) (x : String) {n : Term} {v : Int}
+    (hn : isVar n = false) (hv : v > (maxArity : Int)) :
+    functor3 avoid (.var x) n (.int v) = .err (repErr "max_arity") := by
+  have ha : isVar (Term.int v) = false := rfl
+  simp [functor3, ha, hn, hv]
+
+/-- 8.5.1.3 g): negative arity. -/
+theorem C23_functor_err_negative (avoid : List String) (x : String) {n : Term} {v : Int}
+    (hn : isVar n = false) (hv : v < 0) :
+    functor3 avoid (.var x) n (.int v) = .err (domErr "not_less_than_zero" (.int v)) := by
+  have h1 : ¬ v > (maxArity : Int) := by simp [maxArity]; omega
+  have ha : isVar (Term.int v) = false := rfl
+  simp [functor3, ha, hn, hv, h1]
+
+/-- 8.5.1.3 c): a compound name (whatever the admissible arity). -/
+theorem C23_functor_err_atomic (avoid : List String) (x g : String) (as : List Term) {v : Int}
+    (h0 : 0 ≤ v) (hmax : v ≤ (maxArity : Int)) :
+    functor3 avoid (.var x) (.str g as) (.int v) = .err (typeErr "atomic" (.str g as)) := by
+  have h1 : ¬ v > (maxArity : Int) := by omega
+  have h2 : ¬ v < 0 := by omega
+  simp [functor3, isVar, h1, h2]
+
+/-- 8.5.1.3 e): a number as the name of a term with arguments. -/
+theorem C23_functor_err_atom (avoid : List String) (x : String) {n : Term} (hn : isNumber n = true)
+    {v : Int} (h0 : 0 < v) (hmax : v ≤ (maxArity : Int)) :
+    functor3 avoid (.var x) n (.int v) = .err (typeErr "atom" n) := by
+  have h1 : ¬ (maxArity : Int) < v := by omega
+  have h2 : ¬ v < 0 := by omega
+  have h3 : v ≠ 0 := by omega
+  cases n <;> simp [functor3, isVar, isNumber, h1, h2, h3] at hn ⊢
+
+/-- functor/3 raises an error only when its first argument is unbound. -/
+theorem C23_functor_err_only_if_var (avoid : List String) {t n a e : Term}
+    (h : functor3 avoid t n a = .err e) : isVar t = true := by
+  cases ht : isVar t with
+  | true => rfl
+  | false =>
+      rw [C23_functor_nonvar avoid ht] at h
+      unfold unifyAll at h
+      cases hs : solve [(n, nameOf t), (a, .int (arityOf t))] [] <;> rw [hs] at h <;>
+        simp [ofOutcome] at h
+
+/-! ## arg/3 -/
+
+/-- `arg(N, T, X)` with `T` compound and `1 ≤ N ≤ arity`: exactly the unification of `X` with the
+    `N`-th argument. -/
+theorem C23_arg_in_range (f : String) (args : List Term) (i : Nat) (h : i < args.length) (x : Term) :
+    arg3 (.int ((i : Int) + 1)) (.str f args) x = unifyAll [(x, args[i])] :=
+  arg3_str_some (by omega) ((nth1?_eq_some_iff ..).mpr ⟨i, rfl, h, rfl⟩) x
+
+/-- selection: with `X` a variable not occurring in the selected argument, `X` is bound to it. -/
+theorem C23_arg_select (f : String) (args : List Term) (i : Nat) (h : i < args.length) {X : String}
+    (hX : X ∉ args[i].vars) :
+    arg3 (.int ((i : Int) + 1)) (.str f args) (.var X) = .ok [(X, args[i])] := by
+  rw [C23_arg_in_range f args i h]
+  exact unifyAll_bind hX
+
+/-- out of range (`N = 0` or `N > arity`, bignums included): failure, no error. -/
+theorem C23_arg_out_of_range (f : String) (args : List Term) {v : Int} (hv : 0 ≤ v)
+    (h : v = 0 ∨ (args.length : Int) < v) (x : Term) :
+    arg3 (.int v) (.str f args) x = .fail :=
+  arg3_str_none (by omega) ((nth1?_eq_none_iff ..).mpr (by omega)) x
+
+/-- success characterised: `arg(N, T, X)` has an answer σ iff `T` is compound, `1 ≤ N ≤ arity`
+    and σ is the result of unifying `X` with the `N`-th argument. -/
+theorem C23_arg_ok_iff (n t x : Term) (σ : Subst) :
+    arg3 n t x = .ok σ ↔
+      ∃ (i : Nat) (f : String) (args : List Term) (h : i < args.length),
+        n = .int ((i : Int) + 1) ∧ t = .str f args ∧ unifyAll [(x, args[i])] = .ok σ := by
+  constructor
+  · intro h
+    cases n with
+    | int v =>
+        by_cases hv : v < 0
+        · rw [arg3_neg hv] at h; cases h
+        · cases t with
+          | str f args =>
+              cases hn : nth1? args v with
+              | none => rw [arg3_str_none hv hn] at h; cases h
+              | some u =>
+                  rw [arg3_str_some hv hn] at h
+                  obtain ⟨i, rfl, hlt, rfl⟩ := (nth1?_eq_some_iff ..).mp hn
+                  exact ⟨i, f, args, hlt, rfl, rfl, h⟩
+          | var y => rw [arg3_var_t hv] at h; cases h
+          | int w => rw [arg3_noncompound hv rfl rfl] at h; cases h
+          | rat a b => rw [arg3_noncompound hv rfl rfl] at h; cases h
+          | flt b => rw [arg3_noncompound hv rfl rfl] at h; cases h
+          | atom a => rw [arg3_noncompound hv rfl rfl] at h; cases h
+    | var y => cases h
+    | str f args => rw [arg3_nonint rfl (by intro v; simp)] at h; cases h
+    | rat a b => rw [arg3_nonint rfl (by intro v; simp)] at h; cases h
+    | flt b => rw [arg3_nonint rfl (by intro v; simp)] at h; cases h
+    | atom a => rw [arg3_nonint rfl (by intro v; simp)] at h; cases h
+  · rintro ⟨i, f, args, hlt, rfl, rfl, h⟩
+    rw [C23_arg_in_range f args i hlt]; exact h
+
+/-- the error conditions of ISO 8.5.2.3 a)–e). -/
+def ArgIsoError (n t : Term) : Prop :=
+  isVar n = true ∨ isVar t = true ∨ (isVar n = false ∧ ∀ v, n ≠ .int v) ∨
+    (isVar t = false ∧ isCompound t = false) ∨ ∃ v, n = .int v ∧ v < 0
+
+/-- the formal of an arg/3 error is the one ISO prescribes for a condition that holds. -/
+theorem C23_arg_error_formal {n t x e : Term} (h : arg3 n t x = .err e) :
+    (e = instErr ∧ (isVar n = true ∨ isVar t = true)) ∨
+    (e = typeErr "integer" n ∧ isVar n = false ∧ ∀ v, n ≠ .int v) ∨
+    (e = typeErr "compound" t ∧ isVar t = false ∧ isCompound t = false) ∨
+    (e = domErr "not_less_than_zero" n ∧ ∃ v, n = .int v ∧ v < 0) := by
+  have nonint : ∀ {n : Term}, isVar n = false → (∀ v, n ≠ .int v) → arg3 n t x = .err e →
+      (e = typeErr "integer" n ∧ isVar n = false ∧ ∀ v, n ≠ .int v) := by
+    intro n h1 h2 h
+    rw [arg3_nonint h1 h2] at h
+    injection h with h
+    exact ⟨h.symm, h1, h2⟩
+  have noncomp : ∀ {v : Int} {t : Term}, ¬ v < 0 → isVar t = false → isCompound t = false →
+      arg3 (.int v) t x = .err e → (e = typeErr "compound" t ∧ isVar t = false ∧ isCompound t = false) := by
+    intro v t hv h1 h2 h
+    rw [arg3_noncompound hv h1 h2] at h
+    injection h with h
+    exact ⟨h.symm, h1, h2⟩
+  cases n with
+  | int v =>
+      by_cases hv : v < 0
+      · rw [arg3_neg hv] at h
+        injection h with h
+        exact Or.inr (Or.inr (Or.inr ⟨h.symm, v, rfl, hv⟩))
+      · cases t with
+        | str f args =>
+            cases hn : nth1? args v with
+            | none => rw [arg3_str_none hv hn] at h; cases h
+            | some u => rw [arg3_str_some hv hn] at h; exact absurd h (unifyAll_ne_err _ _)
+        | var y =>
+            rw [arg3_var_t hv] at h
+            injection h with h
+            exact Or.inl ⟨h.symm, Or.inr rfl⟩
+        | int w => exact Or.inr (Or.inr (Or.inl (noncomp hv rfl rfl h)))
+        | rat a b => exact Or.inr (Or.inr (Or.inl (noncomp hv rfl rfl h)))
+        | flt b => exact Or.inr (Or.inr (Or.inl (noncomp hv rfl rfl h)))
+        | atom a => exact Or.inr (Or.inr (Or.inl (noncomp hv rfl rfl h)))
+  | var y =>
+      rw [arg3_var_n] at h
+      injection h with h
+      exact Or.inl ⟨h.symm, Or.inl rfl⟩
+  | str f args => exact Or.inr (Or.inl (nonint rfl (by intro v; simp) h))
+  | rat a b => exact Or.inr (Or.inl (nonint rfl (by intro v; simp) h))
+  | flt b => exact Or.inr (Or.inl (nonint rfl (by intro v; simp) h))
+  | atom a => exact Or.inr (Or.inl (nonint rfl (by intro v; simp) h))
+
+/-- arg/3 raises an error exactly when one of the ISO error conditions holds (whatever the other
+    arguments are: a huge `N` does not hide an unbound or non-compound `T`). -/
+theorem C23_arg_error_iff (n t x : Term) : (∃ e, arg3 n t x = .err e) ↔ ArgIsoError n t := by
+  constructor
+  · rintro ⟨e, h⟩
+    rcases C23_arg_error_formal h with ⟨_, h | h⟩ | ⟨_, h⟩ | ⟨_, h⟩ | ⟨_, h⟩
+    · exact Or.inl h
+    · exact Or.inr (Or.inl h)
+    · exact Or.inr (Or.inr (Or.inl h))
+    · exact Or.inr (Or.inr (Or.inr (Or.inl h)))
+    · exact Or.inr (Or.inr (Or.inr (Or.inr h)))
+  · intro h
+    cases n with
+    | int v =>
+        by_cases hv : v < 0
+        · exact ⟨_, arg3_neg hv t x⟩
+        · cases t with
+          | var y => exact ⟨_, arg3_var_t hv y x⟩
+          | int w => exact ⟨_, arg3_noncompound hv rfl rfl x⟩
+          | rat a b => exact ⟨_, arg3_noncompound hv rfl rfl x⟩
+          | flt b => exact ⟨_, arg3_noncompound hv rfl rfl x⟩
+          | atom a => exact ⟨_, arg3_noncompound hv rfl rfl x⟩
+          | str f args =>
+              exfalso
+              rcases h with h | h | ⟨_, h⟩ | ⟨_, h⟩ | ⟨w, hw, hlt⟩
+              · simp [isVar] at h
+              · simp [isVar] at h
+              · exact h v rfl
+              · simp [isCompound] at h
+              · injection hw with hw; subst hw; exact hv hlt
+    | var y => exact ⟨_, rfl⟩
+    | str f args => exact ⟨_, arg3_nonint rfl (by intro v; simp) t x⟩
+    | rat a b => exact ⟨_, arg3_nonint rfl (by intro v; simp) t x⟩
+    | flt b => exact ⟨_, arg3_nonint rfl (by intro v; simp) t x⟩
+    | atom a => exact ⟨_, arg3_nonint rfl (by intro v; simp) t x⟩
+
+/-- Finding C23-1 (pinned behaviour): with `N = 2^64` the pinned `try_arg` fails although `T` is
+    unbound (ISO 8.5.2.3 b: instantiation_error) … -/
+theorem C23_1_pinned_arg_hides_unbound_term :
+    arg3Pinned (.int (2 ^ 64)) (.var "T") (.var "X") = .fail ∧
+    ArgIsoError (.int (2 ^ 64)) (.var "T") ∧
+    arg3 (.int (2 ^ 64)) (.var "T") (.var "X") = .err instErr := by
+  refine ⟨by simp [arg3Pinned], Or.inr (Or.inl rfl), by simp [arg3]⟩
+
+/-- … and although `T` is not compound (8.5.2.3 d: type_error(compound, T)). -/
+theorem C23_1_pinned_arg_hides_noncompound_term :
+    arg3Pinned (.int (2 ^ 64)) (.atom "a") (.var "X") = .fail ∧
+    arg3 (.int (2 ^ 64)) (.atom "a") (.var "X") = .err (typeErr "compound" (.atom "a")) := by
+  refine ⟨by simp [arg3Pinned], by simp [arg3]⟩
+
+/-- below `2^64` the pinned code and the repaired model coincide. -/
+theorem C23_arg_pinned_eq {n : Term} (h : ∀ v, n = .int v → v < 2 ^ 64) (t x : Term) :
+    arg3Pinned n t x = arg3 n t x := by
+  cases n with
+  | int v =>
+      have h1 := h v rfl
+      simp only [arg3Pinned]
+      rw [if_neg (by omega)]
+  | _ => simp [arg3Pinned]
 
 end Scryer.C23
